@@ -223,7 +223,7 @@ check("C13", "concurrent use of one server is free of data races", "exploration"
       "Any report of the detector is a violation; its signature is the unordered pair of top olareg frames with access kinds.",
       "Trusted: the Go race detector (reports only races on executed, concurrently scheduled accesses); this is fuzzing of schedules, not a proof of race freedom.",
       "DESIGN.md §3 C13",
-      [R("^TestC13$", 800, 20000, shards=(8, 16), timeout=(900, 3300))], variant="race")
+      [R("^TestC13$", 2400, 60000, shards=(8, 16), timeout=(900, 3300))], variant="race")
 
 check("C12", "no schedule can hang the registry", "exploration",
       "rapid generator of concurrent programs on a vsync-instrumented build with injected delays after lock acquisitions; oracle = wait-for-graph cycle / stall monitor, cancellation and Close/Shutdown bounds",
